@@ -89,6 +89,17 @@ def run(tier, seed):
         ("$[?@[-1] == @[0]]", [[1], [1, 2, 1], [1, 2], []], [[1], [1, 2, 1], []]),
         ("$[?@[-2]]", [[1], [1, 2], []], [[1, 2]]),
         ("$.a[?@ == $.a[-1]]", {"a": [1, 2, 1, 2]}, [2, 2]),
+        # string candidates whose text happens to be JSON: a string has no children whatever it spells
+        ("$[?@.a]", ['{"a": 1}', {"a": 1}, '[1]', "a"], [{"a": 1}]),
+        ("$[?@[0]]", ['[1, 2, 3]', [1], '{"0": 1}', "abc"], [[1]]),
+        ("$[?@.*]", ['{"a": 1}', '[1]', [0], {}, "x"], [[0]]),
+        ("$[?@..a]", ['{"b": {"a": 1}}', {"b": {"a": 1}}], [{"b": {"a": 1}}]),
+        ("$[?count(@.*) == 1]", ['{"a": 1}', '[1]', [7], {"k": 1}], [[7], {"k": 1}]),
+        ("$[?length(@.a) == 2]", ['{"a": [1, 2]}', {"a": [1, 2]}], [{"a": [1, 2]}]),
+        ("$[?@.a == 1]", ['{"a": 1}', {"a": 1}], [{"a": 1}]),
+        ("$[?!@.a]", ['{"a": 1}', '[', '{"a"', {"b": 1}], ['{"a": 1}', '[', '{"a"', {"b": 1}]),
+        ("$[?@[?@ > 1]]", ['[1, 2]', [1, 2], [1]], [[1, 2]]),
+        ("$.*[?@.a]", {"k": ['{"a": 1}'], "l": [{"a": 2}]}, [{"a": 2}]),
     ):
         try:
             got = jsonpath.findall(text, doc)
@@ -97,7 +108,7 @@ def run(tier, seed):
         if isinstance(got, list) and U.same_values(got, want):
             rec.ok((text,))
         else:
-            rec.fail(f"negative-index:{text}", f"findall({text!r}, {doc!r}) -> {got!r} but RFC 9535 selects {want!r} (an index segment with a negative index is singular)",
+            rec.fail(f"fixed-case:{text}", f"findall({text!r}, {doc!r}) -> {got!r} but RFC 9535 selects {want!r} (negative indices are singular segments; a string candidate has no children whatever its text spells)",
                      f"import jsonpath\ngot = jsonpath.findall({text!r}, {doc!r})\nprint(got); sys.exit(0 if got == {want!r} else 1)")
     for fn, pat in REGEX_CASES:
         for text in (f"$[?{fn}(@, '{pat}')]", f'$[?{fn}(@, "{pat}")]', f"$[?!{fn}(@, '{pat}')]"):
